@@ -311,6 +311,7 @@ func gen(r *vlib.R, n int, tier string, emit func(string)) {
 		probeBudget = 150
 	}
 	genL3(r, tier, emit, &n)
+	genBreaker(r, emit, &n, map[bool]int{false: 6, true: 60}[tier == "thorough"])
 	genStateless(r, emit, &n, 40)
 	for n > 0 {
 		size, mn, mx, valid := genNew(r)
@@ -1033,6 +1034,53 @@ func indexOf(xs []string, x string) int {
 		}
 	}
 	return 0
+}
+
+// circuit-breaker sessions: a few addresses, failures in a row, successes in
+// between, re-admission around the 30 s mark, idle clean-up around 300 s.
+// (whole-second advances; the totals 29 s and 300 s since an address's last
+// failure are skipped — there the real breaker's truncated time stamp makes
+// the outcome depend on the wall clock's sub-second phase.)
+func genBreaker(r *vlib.R, emit func(string), n *int, sessions int) {
+	for s := 0; s < sessions; s++ {
+		emit("fail cb new")
+		*n--
+		servers := []string{"192.0.2.1:53", "192.0.2.2:53", "[2001:db8::1]:53"}
+		elapsed := map[string]int64{}
+		for i := 10 + r.Intn(30); i > 0; i-- {
+			adv := vlib.Pick(r, []int64{0, 0, 0, 0, 1, 2, 5, 9, 10, 20, 27, 28, 30, 31, 33, 60, 270, 299, 301, 400})
+			for bad := true; bad; {
+				bad = false
+				for _, e := range elapsed {
+					if e+adv == 29 || e+adv == 300 {
+						adv++
+						bad = true
+					}
+				}
+			}
+			for k := range elapsed {
+				elapsed[k] += adv
+			}
+			srv := vlib.Pick(r, servers)
+			switch k := r.Intn(20); {
+			case k < 11:
+				emit(fmt.Sprintf("fail cb %d fail %s", adv, srv))
+				elapsed[srv] = 0
+			case k < 16:
+				emit(fmt.Sprintf("fail cb %d can %s", adv, srv))
+			case k < 19:
+				emit(fmt.Sprintf("fail cb %d ok %s", adv, srv))
+			default:
+				emit(fmt.Sprintf("fail cb %d clean", adv))
+				for k, e := range elapsed {
+					if e > 300 {
+						delete(elapsed, k)
+					}
+				}
+			}
+			*n--
+		}
+	}
 }
 
 func genStateless(r *vlib.R, emit func(string), n *int, k int) {
